@@ -2,7 +2,7 @@
 \* and target boundary at 1200: a cell of 1200 units overlaps it by one unit
 CONSTANTS H = 2400  SrcPts = {1199, 1201}  DstPts = {1200}  Profiles = {1, 2, 3, 4, 11, 12, 13}  FuelChoices = {3}  SolveProfiles = {}
           Jitters = {"none"}  Ops = {"MakeUniform"}  SnapFlags = {}
-          SnapProfiles = {}  MaxLevel = 5
+          SnapProfiles = {}  MoveProfiles = {}  Geoms = {"cold"}  MaxLevel = 5
 INVARIANT EmitState
 INIT Init
 NEXT Next
